@@ -208,6 +208,7 @@ func TestOSMContainer(t *testing.T) {
 
 type ChangeCase struct {
 	Version, Generator              string
+	Copyright, Attribution, License string
 	Create, Modify, Delete          []osmdoc.Item
 	NilCreate, NilModify, NilDelete bool // nil pointer instead of an (empty) block
 }
@@ -220,7 +221,7 @@ func block(items []osmdoc.Item, isNil bool) *osm.OSM {
 }
 
 func checkChange(c ChangeCase) error {
-	v := &osm.Change{Version: c.Version, Generator: c.Generator, Create: block(c.Create, c.NilCreate), Modify: block(c.Modify, c.NilModify), Delete: block(c.Delete, c.NilDelete)}
+	v := &osm.Change{Version: c.Version, Generator: c.Generator, Copyright: c.Copyright, Attribution: c.Attribution, License: c.License, Create: block(c.Create, c.NilCreate), Modify: block(c.Modify, c.NilModify), Delete: block(c.Delete, c.NilDelete)}
 	data, err := xml.Marshal(v)
 	if err != nil {
 		return harness.Failf("C04/marshal-error", "Change does not marshal: %v", err)
@@ -229,8 +230,8 @@ func checkChange(c ChangeCase) error {
 	if err := xml.Unmarshal(data, &back); err != nil {
 		return harness.Failf("C04/unmarshal-error", "own osmChange output does not unmarshal: %v\n%s", err, data)
 	}
-	if back.Version != c.Version || back.Generator != c.Generator {
-		return harness.Failf("C04/change-roundtrip", "root attributes changed\n%s", data)
+	if back.Version != c.Version || back.Generator != c.Generator || back.Copyright != c.Copyright || back.Attribution != c.Attribution || back.License != c.License {
+		return harness.Failf("C04/change-roundtrip", "root attributes changed: got %q %q %q %q %q want %q %q %q %q %q\n%s", back.Version, back.Generator, back.Copyright, back.Attribution, back.License, c.Version, c.Generator, c.Copyright, c.Attribution, c.License, data)
 	}
 	var all []osmdoc.Item
 	for _, b := range []struct {
@@ -249,6 +250,13 @@ func checkChange(c ChangeCase) error {
 	return nil
 }
 
+func optS(t *rapid.T, l string) string {
+	if rapid.Bool().Draw(t, l+"?") {
+		return osmdoc.Str(t, l)
+	}
+	return ""
+}
+
 func TestChangeContainer(t *testing.T) {
 	harness.Run(t, harness.Spec[ChangeCase]{
 		Name: "change-container", N: 2500,
@@ -261,7 +269,8 @@ func TestChangeContainer(t *testing.T) {
 				}
 				return osmdoc.GenItems(t, osmdoc.GenOpt{}, kinds, 4)
 			}
-			return ChangeCase{Version: rapid.SampledFrom([]string{"", "0.6"}).Draw(t, "v"), Generator: osmdoc.Str(t, "gen"), Create: gen("c"), Modify: gen("m"), Delete: gen("d"),
+			return ChangeCase{Version: rapid.SampledFrom([]string{"", "0.6"}).Draw(t, "v"), Generator: osmdoc.Str(t, "gen"),
+				Copyright: optS(t, "copyright"), Attribution: optS(t, "attribution"), License: optS(t, "license"), Create: gen("c"), Modify: gen("m"), Delete: gen("d"),
 				NilCreate: rapid.Bool().Draw(t, "nc"), NilModify: rapid.Bool().Draw(t, "nm"), NilDelete: rapid.Bool().Draw(t, "nd")}
 		},
 		Check: checkChange,
